@@ -82,7 +82,17 @@ CLAIMED = {
 PENDING_REASON = "not claimed yet: the Coq model and tie for this property are not built at this commit (see DESIGN.md build order)"
 
 
+def load_claimed():
+    """entries contributed per property as harness/claimed/<ID>.json (same keys as CLAIMED values)"""
+    d = os.path.join(VERIF, "harness", "claimed")
+    if os.path.isdir(d):
+        for f in sorted(os.listdir(d)):
+            if f.endswith(".json"):
+                CLAIMED[f[:-5]] = json.load(open(os.path.join(d, f)))
+
+
 def main():
+    load_claimed()
     checks = []
     for pid in ALL:
         if pid not in CLAIMED:
